@@ -699,12 +699,17 @@ def gen_document(rng, size=1, ns=NS_141, **opts):
     D['scenes'] = []
     for _ in range(rng.randint(0 if size == 0 else 1, 2 if size > 0 else 1)):
         sc = {'id': g.fid('scene'), 'name': g.word() if g.chance(0.4) else None, 'nodes': []}
-        top_ids = []
-        for _ in range(rng.randint(0, hi + 1)):
-            n = gen_node(g, ctx, 0, lib_ids + top_ids)
+        # top-level scene nodes may instantiate one another through the scene's local scope: per scene either
+        # only earlier ones or only later ones (forward references; never a cycle)
+        ntop = rng.randint(0, hi + 1)
+        top_ids = [g.fid('top') if g.chance(0.85) else None for _ in range(ntop)]
+        forward = g.chance(0.4)
+        for i in range(ntop):
+            others = top_ids[i + 1:] if forward else top_ids[:i]
+            n = gen_node(g, ctx, 0, lib_ids + [t for t in others if t])
+            n['id'] = top_ids[i]
             sc['nodes'].append(n)
-            if n['id']:
-                top_ids.append(n['id'])
+        sc['forward'] = forward
         D['scenes'].append(sc)
     D['scene'] = rng.choice(D['scenes'])['id'] if D['scenes'] and g.chance(0.85) else None
 
